@@ -128,6 +128,13 @@ SetPlain(n, v) ==
           /\ Rec("plain", [n |-> n, v |-> v], "rejected", val, link, IF link[n] # NoRef THEN {"KF_RejectedPlainUnlinks"} ELSE {})
   /\ UNCHANGED <<src, srcw, ctx>>
 
+\* the constant parameter k is assigned a value that is equal to, but not the same object as, the one it holds
+\* (float(k) for the int it holds): refused like any other object, links untouched
+SetPlainEq ==
+  /\ "plain" \in Acts /\ "const" \in Kinds /\ Step
+  /\ UNCHANGED <<src, srcw, link, val, ctx>>
+  /\ Rec("plaineq", [n |-> "k"], "rejected", val, link, {})
+
 \* `with target.param.update(n=v):` ... on exit the previous value and link are back
 EnterUpd(n, v, form) ==
   /\ "updctx" \in Acts /\ Step /\ ctx = <<>> /\ n \in Scalars /\ Valid(n, v)
@@ -148,7 +155,7 @@ Next == \/ \E i \in Sources, v \in {0, 2, 4, 5, NoneV}, w \in {1, 3}, o \in {"vw
         \/ \E n \in PNames : \E ref \in RefsFor(n) : SetRef(n, ref)
         \/ \E n \in PNames : \E v \in (IF n = "r" THEN {107} ELSE {3, 9}) : SetPlain(n, v)
         \/ \E n \in Scalars, form \in {"kw", "dict"} : EnterUpd(n, 3, form)
-        \/ ExitUpd
+        \/ ExitUpd \/ SetPlainEq
 Spec == Init /\ [][Next]_vars
 
 \* ---- properties ------------------------------------------------------------------------------
